@@ -139,7 +139,17 @@ func (e *ExecutionConfig) UnmarshalJSON(input []byte) error {
 		minValue = minValue.Mul(weiPerETH)
 		e.MinValue = &minValue
 	}
+	for address, relay := range data.Relays {
+		if relay == nil {
+			return fmt.Errorf("relay %s has no configuration", address)
+		}
+	}
 	e.Relays = data.Relays
+	for i, proposer := range data.Proposers {
+		if proposer == nil {
+			return fmt.Errorf("proposer entry %d has no configuration", i)
+		}
+	}
 	e.Proposers = data.Proposers
 
 	return nil
